@@ -713,6 +713,9 @@ class Interp:
         cal = e.get("rfn") or e.get("fn")
         gen = e.get("fn") or ""
         if cal is None:
+            if isinstance(e.get("fexpr"), dict):
+                callee = self.ev(e["fexpr"], env, depth)       # a function pointer / closure held in a variable or parameter
+                return self.call_callable(callee, [self.ev(a, env, depth) for a in e.get("args", [])], depth)
             raise Unknown("indirect call")
         args = e.get("args", [])
         ck = (cal, gen)
@@ -856,6 +859,19 @@ class Interp:
                 if not isinstance(o, (list, tuple)):
                     raise Unknown("zip with %r" % (o,))
                 return [(a_, b_) for a_, b_ in zip(v, o)]
+            if m == "chain":
+                o_ = self.ev(args[1], env, depth)
+                o_ = o_.get() if isinstance(o_, Ref) else o_
+                if isinstance(o_, Enum) and o_.variant in ("Some", "None"):
+                    o_ = [o_.fields["0"]] if o_.variant == "Some" else []
+                if not isinstance(o_, (list, tuple)):
+                    raise Unknown("chain with %r" % (o_,))
+                return v + list(o_)
+            if m in ("step_by",):
+                k_ = self.ev(args[1], env, depth)
+                if isinstance(k_, int) and k_ > 0:
+                    return v[::k_]
+                raise Unknown("step_by")
             if m in ("fold", "try_fold"):
                 acc = self.ev(args[1], env, depth)
                 fcl = self.ev(args[2], env, depth)
@@ -879,8 +895,25 @@ class Interp:
                 return r_
             if m in ("last",):
                 return Enum("Option", "Some", {"0": v[-1]}) if v else Enum("Option", "None")
-            if m in ("min", "max") and v and all(isinstance(x, (int, float)) and not isinstance(x, bool) for x in v):
-                return Enum("Option", "Some", {"0": min(v) if m == "min" else max(v)})
+            if m in ("min", "max"):
+                if not v:
+                    return Enum("Option", "None")
+                def ordkey(x):
+                    x = x.get() if isinstance(x, Ref) else x
+                    if isinstance(x, (list, tuple)):
+                        return tuple(ordkey(y) for y in x)
+                    if isinstance(x, (int, float, str)) and not isinstance(x, bool):
+                        return x
+                    if isinstance(x, bool):
+                        return int(x)
+                    raise Unknown("%s of %r" % (m, x))
+                ks = [ordkey(x) for x in v]
+                best = 0
+                for i_ in range(1, len(v)):
+                    # Iterator::min keeps the first of equal elements, max the last
+                    if (m == "min" and ks[i_] < ks[best]) or (m == "max" and ks[i_] >= ks[best]):
+                        best = i_
+                return Enum("Option", "Some", {"0": v[best]})
             if m == "count":
                 return len(v)
             if m == "rev":
@@ -1097,6 +1130,10 @@ class Interp:
                 v.extend(o)
                 if short(gen) == "append" and isinstance(o, list):
                     del o[:]
+                return ()
+            if isinstance(v, str) and isinstance(o, (list, tuple, str)) and all(isinstance(x, str) for x in o):
+                # String::extend(chars / strs)
+                self.assign(args[0], v + "".join(o), env, depth)
                 return ()
             raise Unknown("%s of %r with %r" % (short(gen), v, o))
         if gen in ("core::option::Option::<T>::is_some", "core::option::Option::<T>::is_none", "core::result::Result::<T, E>::is_ok", "core::result::Result::<T, E>::is_err"):
@@ -1453,6 +1490,44 @@ class Interp:
                     base.append(fill if isinstance(fill, (bool, int, float, str)) else _c.deepcopy(fill))
                 return ()
             raise Unknown("resize of %r to %r" % (base, n_))
+        if gen in ("core::iter::sources::once::once", "core::iter::sources::empty::empty", "core::iter::sources::repeat_n::repeat_n"):
+            if gen.endswith("empty"):
+                return []
+            v0 = self.ev(args[0], env, depth)
+            if gen.endswith("once"):
+                return [v0]
+            n_ = self.ev(args[1], env, depth)
+            if isinstance(n_, int) and 0 <= n_ <= 4096:
+                return [v0] * n_
+            raise Unknown("repeat_n count")
+        if gen.startswith(("core::num::<impl u8>::is_ascii_", "core::char::methods::<impl char>::is_ascii_", "core::char::methods::<impl char>::is_")) and len(args) == 1:
+            v0 = self.ev(args[0], env, depth)
+            v0 = v0.get() if isinstance(v0, Ref) else v0
+            c_ = chr(v0) if isinstance(v0, int) and 0 <= v0 < 0x110000 else v0
+            if isinstance(c_, str) and len(c_) == 1:
+                asc = ord(c_) < 128
+                t_ = {"is_ascii_digit": asc and c_.isdigit(), "is_ascii_alphabetic": asc and c_.isalpha(), "is_ascii_alphanumeric": asc and c_.isalnum(),
+                      "is_ascii_hexdigit": c_ in "0123456789abcdefABCDEF", "is_ascii_whitespace": c_ in " \t\n\x0c\r", "is_ascii_uppercase": asc and c_.isupper(),
+                      "is_ascii_lowercase": asc and c_.islower(), "is_ascii_punctuation": asc and (33 <= ord(c_) <= 126) and not c_.isalnum(), "is_ascii": asc,
+                      "is_alphabetic": c_.isalpha(), "is_numeric": c_.isnumeric(), "is_alphanumeric": c_.isalnum(), "is_whitespace": c_.isspace(),
+                      "is_uppercase": c_.isupper(), "is_lowercase": c_.islower(), "is_digit": None}
+                r_ = t_.get(short(gen))
+                if r_ is not None:
+                    return bool(r_)
+            raise Unknown("%s of %r" % (short(gen), v0))
+        if gen in ("core::slice::<impl [T]>::strip_prefix", "core::slice::<impl [T]>::strip_suffix", "core::str::<impl str>::strip_prefix", "core::str::<impl str>::strip_suffix"):
+            base = self.ev(args[0], env, depth)
+            x = self.ev(args[1], env, depth)
+            base = base.get() if isinstance(base, Ref) else base
+            x = x.get() if isinstance(x, Ref) else x
+            if isinstance(base, (list, tuple)) and isinstance(x, (list, tuple)):
+                base, x = list(base), list(x)
+            elif not (isinstance(base, str) and isinstance(x, str)):
+                raise Unknown("strip_prefix on %r" % (base,))
+            n_ = len(x)
+            if gen.endswith("strip_prefix"):
+                return Enum("Option", "Some", {"0": base[n_:]}) if base[:n_] == x else Enum("Option", "None")
+            return Enum("Option", "Some", {"0": base[:len(base) - n_]}) if (n_ == 0 or base[-n_:] == x) else Enum("Option", "None")
         if gen in ("core::slice::<impl [T]>::starts_with", "core::slice::<impl [T]>::ends_with"):
             base = self.ev(args[0], env, depth)
             x = self.ev(args[1], env, depth)
